@@ -42,6 +42,7 @@ def conflict_scenarios(tier, seed, tail):
                     others = [n for n in c.nodes if n != victim]
                     for o in others:
                         d.cut(victim, o)
+                        d.cut(o, victim)
                     for _ in range(4):
                         d.fair_round()
                 cl.fair_tail(d, cfg, tail + 4)
@@ -58,7 +59,7 @@ def main(tier, seed, replay=None):
         return cc.replay_file(replay)
     q = tier == 'quick'
     e1 = [cl.Config(n=2, crash=1, restart=1, rounds=12, sync=('LIST', 'TIMEOUT')),
-          cl.Config(n=2, crash=1, restart=1, user=1, rounds=11, sync=('TIMEOUT',)),
+          cl.Config(n=2, crash=1, restart=1, conflict=1, rounds=11, sync=('TIMEOUT',)),
           cl.Config(n=3, crash=1, rounds=10, sync=('LIST', 'TIMEOUT')),
           cl.Config(n=2, slow=[(1, 2)], rounds=9, k=7)]
     if not q:
@@ -69,7 +70,8 @@ def main(tier, seed, replay=None):
                cl.Config(n=3, crash=1, restart=1, rounds=12, core=(2,), sync=('CORE', 'TIMEOUT'), fail='RESYNC')]
     sim = [cl.Config(n=3, slow=[(1, 3), (2, 3), (3, 3)], crash=1, restart=1, cut=1, sync=('LIST', 'TIMEOUT')),
            cl.Config(n=3, slow=[(3, 1), (3, 2)], crash=1, restart=1, sync=('TIMEOUT',))]
-    rnd = [cl.Config(n=3, crash=1, restart=1, cut=1, sync=('LIST', 'TIMEOUT')),
+    rnd = [cl.Config(n=3, crash=1, restart=1, cut=2, sync=('LIST', 'TIMEOUT')),
+           cl.Config(n=3, crash=1, restart=1, sync=('STRICT', 'TIMEOUT'), fail='RESYNC'),
            cl.Config(n=3, crash=2, restart=2, sync=('TIMEOUT',), fail='CONTINUE'),
            cl.Config(n=4, crash=1, restart=1, cut=1, sync=('LIST', 'TIMEOUT'))]
     if not q:
